@@ -41,7 +41,10 @@ EXPLANATION = (
     "'var'), so the consumer's fallback to the source operator's declared output is never taken for an edge source; the consumer passes "
     "the record's 'var' on to the '<node>/<op>/<var>' lookup.  R6 no local of a loop over self.connections / self.populations in "
     "CircuitTemplate is bound under a condition of the current element, read outside it and reset only in front of the loop (shared "
-    "lint stale_loop_carry with positive/negative controls): every connection is compiled on its own.  NOT decided: "
+    "lint stale_loop_carry with positive/negative controls): every connection is compiled on its own.  R7 on the control-flow graph of the per-edge-group loop of "
+    "NetworkGraph._generate_edge_equation: every path through one iteration that adds an equation to the operator's equation list "
+    "also extends the list that `<t> = '+'.join(...)` is built from before the iteration ends (fall-through, continue, break) - an "
+    "emitted input term is never left out of the target's sum.  NOT decided: "
     "numerical equality of trajectories, the semantics of numpy/einsum (trusted), edge templates with more than the enumerated forms, "
     "user edge dictionaries that themselves contain source_idx/target_idx."
 )
@@ -966,13 +969,26 @@ def collision_sites(ctx, rid, cls_rel=IR, cls_name="NetworkGraph", only=None):
     of C05-R2 (rules/c05.py: enumerated collision-test idioms - set intersection, any(k in A ...), isdisjoint, loop with raise,
     renaming loop - plus "the tested dict is not changed between test and use"), restricted to the named methods."""
     from .c05 import analysed_sites
+    # a site belongs to a named method when it sits in that method or in a private helper the method (transitively) calls
+    owner = {}
+    if only:
+        cls = ctx.repo.get_class(cls_rel, cls_name)
+        for nm in only:
+            for _, g in _helper_closure(ctx, get_method(ctx, cls, nm), spliced=False):
+                owner.setdefault(g.qual, set()).add(nm)
+    covered = set()
     n = 0
     for s_ in analysed_sites(ctx):
         if s_.kind != "variables" or s_.f.cls is None or s_.f.cls.name != cls_name:
             continue
-        if only and s_.f.name not in only:
+        if only and s_.f.qual not in owner:
             continue
-        n += 1
+        for nm in owner.get(s_.f.qual, ()):
+            if nm not in covered:
+                covered.add(nm)
+                n += 1
+        if not only:
+            n += 1
         facts = {"into": f"{s_.op_name}['variables']", "guard": norm(s_.guard) if s_.guard is not None else None}
         if s_.guard is not None:
             ctx.ok(rid, s_.f, s_.stmt, "the update is dominated by a collision test between the existing and the generated names that raises", facts)
@@ -1088,16 +1104,18 @@ def r4_collision_and_forwarding(ctx, rid):
 # R5 source records of an in-edge operator name the source variable (producer / consumer agreement)
 # ------------------------------------------------------------------------------------------------
 
-def _helper_closure(ctx, f0, depth=3):
-    """f0 and the private helpers it (transitively) calls, each as its inlined view: [(view, original)]"""
+def _helper_closure(ctx, f0, depth=3, spliced=True):
+    """f0 and the private helpers it (transitively) calls, each as its inlined view: [(view, original)].  With spliced=False the
+    calls are read off the original bodies, so helpers that the view splices in are members too."""
     members, todo = [f0], [(f0, 0)]
     while todo:
         fx, dpt = todo.pop()
         if dpt >= depth:
             continue
-        for c in walk_shallow(R.view(ctx, fx).node):
+        src = R.view(ctx, fx) if spliced else fx
+        for c in walk_shallow(src.node):
             if isinstance(c, ast.Call):
-                g = R.private_helper(ctx, R.view(ctx, fx), c)
+                g = R.private_helper(ctx, src, c)
                 if g is not None and all(g.qual != m.qual for m in members):
                     members.append(g)
                     todo.append((g, dpt + 1))
